@@ -59,6 +59,11 @@ func (f *ReturnFrom) Call(s *slip.Scope, args slip.List, depth int) slip.Object 
 	}
 	if 1 < len(args) {
 		rr.Result = slip.EvalArg(s, args, 1, depth+1)
+		switch rr.Result.(type) {
+		case *slip.ReturnResult, *GoTo:
+			// An exit taken while the value is computed comes first.
+			return rr.Result
+		}
 	}
 	return &rr
 }
